@@ -71,6 +71,7 @@ var mustCloneSites = []mustClone{
 	{"select-send", "funcContext.translateStmt", "type:*ast.SelectStmt/type:*ast.SendStmt", true, 1, "a value sent from a select case is copied"},
 	{"map-store", "funcContext.translateAssign", "", true, 2, "map store copies key and value"},
 	{"conversion", "funcContext.translateConversion", "", true, 1, "an explicit conversion between struct/array types yields a copy"},
+	{"range-array", "funcContext.translateStmt", "type:*ast.RangeStmt", true, 1, "ranging over an array with a value variable iterates over a copy taken before the first iteration (Go spec: the range expression is evaluated once; assignments to the array inside the loop are not seen by the iteration values)"},
 }
 
 // reviewed contexts of the non-cloning helper (aliasing impossible or the consumer copies)
